@@ -955,20 +955,46 @@ func (c *fdCtx) namedResults(es []ast.Expr) bool {
 
 func (w *fdWalker) rangeSliceAsFor(s *ast.RangeStmt) *ast.ForStmt {
 	info := w.s.pkg.TypesInfo
-	if s.Tok != token.DEFINE || s.Value == nil || w.s.noRangeSlice {
+	if s.Tok != token.DEFINE || w.s.noRangeSlice {
 		return nil
 	}
+	// the index variable, when the loop names one (round 4): `for i := range B` /
+	// `for i, x := range B` is `for i := 0; i < len(B); i++` (x read as B[i]) under the
+	// same conditions, when in addition the body does not write i (a write would move the
+	// counting loop but not the range loop), i is not captured or address-taken (one
+	// variable per iteration either way, indistinguishable then) and B is ranged as a whole
+	var keyID *ast.Ident
+	var keyVar *types.Var
 	if s.Key != nil {
-		if id, ok := s.Key.(*ast.Ident); !ok || id.Name != "_" {
+		id, ok := s.Key.(*ast.Ident)
+		if !ok {
 			return nil
 		}
+		if id.Name != "_" {
+			keyID = id
+			if keyVar, ok = info.Defs[id].(*types.Var); !ok {
+				return nil
+			}
+			if fdWrittenIn(s.Body, info).any(keyVar) || w.noFacts[keyVar] {
+				return nil
+			}
+		}
 	}
-	vid, ok := s.Value.(*ast.Ident)
-	if !ok || vid.Name == "_" {
-		return nil
+	var vid *ast.Ident
+	var xv *types.Var
+	if s.Value != nil {
+		id, ok := s.Value.(*ast.Ident)
+		if !ok {
+			return nil
+		}
+		if id.Name != "_" {
+			vid = id
+			if xv, ok = info.Defs[id].(*types.Var); !ok {
+				return nil
+			}
+		}
 	}
-	xv, ok := info.Defs[vid].(*types.Var)
-	if !ok {
+	if vid == nil && keyID == nil {
 		return nil
 	}
 	x := fdUnparen(s.X)
@@ -991,6 +1017,9 @@ func (w *fdWalker) rangeSliceAsFor(s *ast.RangeStmt) *ast.ForStmt {
 		}
 		x = fdUnparen(sl.X)
 	}
+	if keyID != nil && k != 0 {
+		return nil // the index counts from the start of the sub-slice
+	}
 	bid, ok := x.(*ast.Ident)
 	if !ok {
 		return nil
@@ -1000,15 +1029,20 @@ func (w *fdWalker) rangeSliceAsFor(s *ast.RangeStmt) *ast.ForStmt {
 		return nil
 	}
 	st, ok := B.Type().Underlying().(*types.Slice)
-	if !ok || !types.Identical(st.Elem(), xv.Type()) {
+	if !ok || (xv != nil && !types.Identical(st.Elem(), xv.Type())) {
 		return nil
 	}
 	all := fdWrittenIn(w.fd.Body, info)
-	if all.any(B) || all.addr[xv] || fdWrittenIn(s.Body, info).any(xv) || w.noFacts[B] || w.noFacts[xv] {
+	if all.any(B) || w.noFacts[B] {
 		return nil
 	}
-	if w.mayWriteElems(s.Body, st.Elem()) {
-		return nil
+	if xv != nil {
+		if all.addr[xv] || fdWrittenIn(s.Body, info).any(xv) || w.noFacts[xv] {
+			return nil
+		}
+		if w.mayWriteElems(s.Body, st.Elem()) {
+			return nil
+		}
 	}
 	if k > 0 && !w.indexedBefore(B, k-1, s) {
 		return nil
@@ -1017,12 +1051,17 @@ func (w *fdWalker) rangeSliceAsFor(s *ast.RangeStmt) *ast.ForStmt {
 		w.s.synth = map[*ast.Ident]types.Object{}
 	}
 	w.s.usedRangeSlice = true
-	key := ast.NewIdent("·i")
-	key.NamePos = s.For
-	kv := types.NewVar(s.For, w.s.pkg.Types, "·i", types.Typ[types.Int])
-	w.s.synth[key] = kv
-	if w.tracked[xv] {
-		w.tracked[kv] = true
+	key := keyID
+	if key == nil {
+		key = ast.NewIdent("·i")
+		key.NamePos = s.For
+		kv := types.NewVar(s.For, w.s.pkg.Types, "·i", types.Typ[types.Int])
+		w.s.synth[key] = kv
+		if w.tracked[xv] {
+			w.tracked[kv] = true
+		}
+	} else if xv != nil && w.tracked[xv] {
+		w.tracked[keyVar] = true
 	}
 	lenID := ast.NewIdent("len")
 	lenID.NamePos = s.X.Pos()
@@ -1030,7 +1069,9 @@ func (w *fdWalker) rangeSliceAsFor(s *ast.RangeStmt) *ast.ForStmt {
 	if low == nil {
 		low = &ast.BasicLit{ValuePos: s.For, Kind: token.INT, Value: "0"}
 	}
-	w.alias[xv] = &ast.IndexExpr{X: bid, Lbrack: s.X.Pos(), Index: key, Rbrack: s.X.End()}
+	if xv != nil {
+		w.alias[xv] = &ast.IndexExpr{X: bid, Lbrack: s.X.Pos(), Index: key, Rbrack: s.X.End()}
+	}
 	return &ast.ForStmt{
 		For:  s.For,
 		Init: &ast.AssignStmt{Lhs: []ast.Expr{key}, TokPos: s.For, Tok: token.DEFINE, Rhs: []ast.Expr{low}},
